@@ -1,6 +1,8 @@
 package main
 
 import (
+	"fmt"
+	"os"
 	"regexp"
 	"sort"
 	"strings"
@@ -276,6 +278,12 @@ func (c *Ctx) SuccessRequiresEdges(rule string, fn *ssa.Function, name string, e
 		return false
 	}
 	cut := NewCut().AddEdges(edges...)
+	if os.Getenv("VERIF_DEBUG_EDGES") != "" && strings.Contains(name, os.Getenv("VERIF_DEBUG_EDGES")) {
+		for _, e := range edges {
+			iff := lastIf(e.From)
+			fmt.Fprintln(os.Stderr, "EDGE", fname(e.From.Parent()), e.From.Index, e.Idx, normCond(iff.Cond, e.Idx == 0))
+		}
+	}
 	for _, r := range Returns(fn) {
 		cut.AddEdges(phiNonNilEdges(r)...)
 	}
